@@ -10,7 +10,7 @@ namespace Bourse
 /-- What a queue entry `(k ↦ id)` of side `sd` says about order `id` in table `os`. -/
 def EntryOk (os : List Entry) (sd : Side) (stamp : Nat) (k : Nat × Nat) (id : Nat) : Prop :=
   ∃ e, os[id]? = some e ∧ e.order.status = .active ∧ e.order.side = sd ∧ e.key = ⟨sd, k.1, k.2⟩ ∧
-       k.1 = priceKey sd e.order.price ∧ 0 < e.order.vol ∧ k.2 < stamp
+       k.1 = priceKey sd e.order.price ∧ 0 < e.order.vol ∧ k.2 < stamp ∧ e.order.price ≤ MAXP
 
 structure SideInv (os : List Entry) (sd : Side) (s : SideS) (stamp : Nat) : Prop where
   so : SMap.Sorted s.orders
@@ -59,9 +59,9 @@ theorem SideInv.frame {os : List Entry} {sd : Side} {s : SideS} {stamp stamp' : 
   sv := h.sv
   ent := by
     intro k id hm
-    obtain ⟨e, he, h1, h2, h3, h4, h5, h6⟩ := h.ent k id hm
+    obtain ⟨e, he, h1, h2, h3, h4, h5, h6, h7⟩ := h.ent k id hm
     have hne : i ≠ id := fun hc => hni k (hc ▸ hm)
-    exact ⟨e, by simp [List.getElem?_set, hne, he], h1, h2, h3, h4, h5, by omega⟩
+    exact ⟨e, by simp [List.getElem?_set, hne, he], h1, h2, h3, h4, h5, by omega, h7⟩
   agg := by
     intro pk
     have : aggAt (os.set i e') s.orders pk = aggAt os s.orders pk := by
@@ -86,7 +86,7 @@ theorem SideInv.insert {os : List Entry} {sd : Side} {s : SideS} {stamp stamp' :
     (pk st id : Nat) (e' : Entry) (hfresh : SMap.find? (pk, st) s.orders = none) (hni : ∀ k, (k, id) ∉ s.orders)
     (hid : id < os.length) (hst : stamp ≤ stamp')
     (he : e'.order.status = .active ∧ e'.order.side = sd ∧ e'.key = ⟨sd, pk, st⟩ ∧
-          pk = priceKey sd e'.order.price ∧ 0 < e'.order.vol ∧ st < stamp')
+          pk = priceKey sd e'.order.price ∧ 0 < e'.order.vol ∧ st < stamp' ∧ e'.order.price ≤ MAXP)
     (hnf : (s.insertOrder pk st id e'.order.vol).fault = false) :
     SideInv (os.set id e') sd (s.insertOrder pk st id e'.order.vol) stamp' := by
   have hf := h.frame id e' hni hst
@@ -103,7 +103,7 @@ theorem SideInv.insert {os : List Entry} {sd : Side} {s : SideS} {stamp stamp' :
   · intro k j hm
     rcases SMap.mem_insert_imp _ _ _ _ hm with hm | hm
     · injection hm with h1 h2; subst h1 h2
-      exact ⟨e', by simp [List.getElem?_set, hid], he.1, he.2.1, he.2.2.1, he.2.2.2.1, he.2.2.2.2.1, he.2.2.2.2.2⟩
+      exact ⟨e', by simp [List.getElem?_set, hid], he.1, he.2.1, he.2.2.1, he.2.2.2.1, he.2.2.2.2.1, he.2.2.2.2.2.1, he.2.2.2.2.2.2⟩
     · exact hf.ent k j hm
   · intro pk'
     have hagg : aggAt (os.set id e') (SMap.insert (pk, st) id s.orders) pk' =
@@ -175,9 +175,9 @@ theorem SideInv.remove {os : List Entry} {sd : Side} {s : SideS} {stamp : Nat} (
     · exact SMap.sorted_insert _ _ _ h.sv
   · intro k j hkj
     have hkj' := SMap.mem_erase_imp _ _ _ hkj
-    obtain ⟨e, he, h1, h2, h3, h4, h5, h6⟩ := h.ent k j hkj'
+    obtain ⟨e, he, h1, h2, h3, h4, h5, h6, h7⟩ := h.ent k j hkj'
     have hne : id ≠ j := fun hc => hni k (hc ▸ hkj)
-    exact ⟨e, by simp [List.getElem?_set, hne, he], h1, h2, h3, h4, h5, h6⟩
+    exact ⟨e, by simp [List.getElem?_set, hne, he], h1, h2, h3, h4, h5, h6, h7⟩
   · intro pk'
     rw [hcongr pk']
     simp only [Nat.add_sub_cancel]
@@ -266,12 +266,12 @@ theorem SideInv.reduce {os : List Entry} {sd : Side} {s : SideS} {stamp : Nat} (
     · subst hj
       have hk := h.unique hkj hm
       subst hk
-      obtain ⟨e0, he0, h1, h2, h3, h4, h5, h6⟩ := h.ent _ _ hkj
+      obtain ⟨e0, he0, h1, h2, h3, h4, h5, h6, h7⟩ := h.ent _ _ hkj
       rw [he] at he0; injection he0 with he0; subst he0
-      refine ⟨e', by simp [hid], he'.1, by rw [he'.2.1, h2], by rw [he'.2.2.1, h3], by rw [he'.2.2.2.1]; exact h4, ?_, h6⟩
+      refine ⟨e', by simp [hid], he'.1, by rw [he'.2.1, h2], by rw [he'.2.2.1, h3], by rw [he'.2.2.2.1]; exact h4, ?_, h6, by rw [he'.2.2.2.1]; exact h7⟩
       rw [he'.2.2.2.2]; omega
-    · obtain ⟨e0, he0, h1, h2, h3, h4, h5, h6⟩ := h.ent k j hkj
-      exact ⟨e0, by simp [List.getElem?_set, Ne.symm hj, he0], h1, h2, h3, h4, h5, h6⟩
+    · obtain ⟨e0, he0, h1, h2, h3, h4, h5, h6, h7⟩ := h.ent k j hkj
+      exact ⟨e0, by simp [List.getElem?_set, Ne.symm hj, he0], h1, h2, h3, h4, h5, h6, h7⟩
   · intro pk'
     simp only [haggnew pk']
     by_cases hpk : pk = pk'
